@@ -38,6 +38,8 @@ def count_parts(cnt_atom):
     op, term, k = cnt_atom.payload
     lst, pred = term.args
     thr = k.uval() if isinstance(k, BV) and k.known() else None
+    if op == 'Gt' and thr is not None:
+        op, thr = 'Ge', thr + 1          # count > 1 is count >= 2
     # pred is the bit "history element == X": a tokeq2 atom with payload (elem token, Zobrist{HF})
     if isinstance(pred, BV):
         pred = pred.bits[0]
